@@ -33,7 +33,7 @@ import itertools
 
 from . import dom, ordint as O
 from .facts import AnalysisBroken
-from .util import field_writes, calls_in
+from .util import field_writes, calls_in, callers_of
 
 LEVEL = 'other'
 EXPLANATION = ('Abstract interpretation of Zones::insert/remove/closest (and their helpers, inlined from their own CFGs) over the finite '
@@ -42,7 +42,7 @@ EXPLANATION = ('Abstract interpretation of Zones::insert/remove/closest (and the
                'the free-interval set stays sorted, disjoint, inside its bounds, that removed ranges are never offered again, and that '
                'the collider only reports "resolved" from a position such an interval offered.  The geometric clauses of C17 (octabox '
                'overlap, limit rectangle arithmetic) are run-time single-precision facts and are not decided.')
-FLOORS = {'ZONESET': 2, 'ZONEWRITERS': 5, 'OFFERED': 2, 'RESOLVED': 2}
+FLOORS = {'ZONESET': 2, 'ZONEWRITERS': 5, 'OFFERED': 2, 'RESOLVED': 2, 'LIMITARGS': 3}
 SKIP_CONFIGS = ()
 
 PX = 'graphite2::Zones::Exclusion::'
@@ -530,6 +530,114 @@ def resolved(run, fx):
         run.held('RESOLVED', 'resolved only from an offered position', fn.loc(clears[0][1]), 'every isCol = false is dominated by %s >= 0 after Zones::closest filled it' % cname)
 
 
+def limitargs(run, fx):
+    """LIMITARGS: "keeps the glyph's ACCUMULATED collision offset inside the limit rectangle in force for the glyph".  Both colliders are
+    told three things about the glyph being fixed: its limit rectangle, the shift computed so far in this pass, and the offset accumulated
+    in earlier passes; the limit is made relative to the accumulated offset (ShiftCollider: limit - currOffset; KernCollider: the clamp
+    _limit - _offsetPrev).  At every call of initSlot the parameter that plays the accumulated-offset role (the one stored into the field
+    the limit is made relative to) must receive SlotCollision::offset(), the in-pass role SlotCollision::shift(), the rectangle
+    SlotCollision::limit() -- all of the collision record of the very slot passed as the target."""
+    roles_by_field = {'_currOffset': 'offset', '_offsetPrev': 'offset', '_currShift': 'shift', '_limit': 'limit'}
+    getter = {'offset': 'graphite2::SlotCollision::offset', 'shift': 'graphite2::SlotCollision::shift', 'limit': 'graphite2::SlotCollision::limit'}
+    n = 0
+    for cls in ('graphite2::ShiftCollider', 'graphite2::KernCollider'):
+        fn = fx.one(cls + '::initSlot')
+        pv = {p_['vid']: k for k, p_ in enumerate(fn.f['params'])}
+        role = {}
+        for _, e in fn.elements():
+            if e['k'] in ('BinaryOperator', 'CXXOperatorCallExpr') and (e.get('op') == '=' or (e.get('fq') or '').endswith('operator=')):
+                args = e.get('args') if e.get('args') is not None else e.get('c')
+                if not args or len(args) < 2:
+                    continue
+                l = fn.strip(args[0])
+                if l['k'] == 'MemberExpr' and l.get('dk') == 'Field' and l['d'].split('::')[-1] in roles_by_field:
+                    for x in fn.walk(args[1]):
+                        if x['k'] == 'DeclRefExpr' and x.get('vid') in pv:
+                            role.setdefault(roles_by_field[l['d'].split('::')[-1]], set()).add(pv[x['vid']])
+        # the limit rectangle may be combined with the offset parameter before it is stored: that parameter is NOT the rectangle
+        if 'limit' in role and 'offset' in role:
+            role['limit'] = role['limit'] - role['offset']
+        if any(len(role.get(r, ())) != 1 for r in ('offset', 'shift', 'limit')):
+            run.broken('LIMITARGS', '%s::initSlot parameter roles' % cls.split('::')[-1], 'cannot identify which parameters are stored as limit / in-pass shift / accumulated offset: %s' % role, fn.where())
+            continue
+        idx = {r: next(iter(role[r])) for r in ('offset', 'shift', 'limit')}
+        slot_idx = [k for k, p_ in enumerate(fn.f['params']) if 'Slot *' in (p_.get('t') or '')]
+        for cf, ce in callers_of(fx, cls + '::initSlot'):
+            n += 1
+            inst = '%s::initSlot called from %s' % (cls.split('::')[-1], cf.q.split('::')[-1])
+            args = ce['args']
+            recv = set()
+            probs = []
+            for r in ('limit', 'shift', 'offset'):
+                a = cf.strip_all_casts(cf.deref(args[idx[r]]))
+                if a['k'] != 'CXXMemberCallExpr' or a.get('fq') != getter[r]:
+                    probs.append('the %s parameter `%s` receives %s, expected the slot\'s SlotCollision::%s()' % (
+                        {'limit': 'limit-rectangle', 'shift': 'in-pass shift', 'offset': 'accumulated-offset'}[r], fn.f['params'][idx[r]]['n'], cf.render(a), r))
+                else:
+                    recv.add(cf.render(cf.strip_all_casts(cf.N(a['obj']))))
+            if not probs and len(recv) != 1:
+                probs.append('limit, shift and offset are taken from different collision records: %s' % sorted(recv))
+            if not probs and slot_idx:
+                # the record is seg->collisionInfo(<the target slot>)
+                rv = next(iter(recv))
+                tgt = cf.render(cf.strip_all_casts(args[slot_idx[0]]))
+                d = None
+                for _, x in cf.elements():
+                    if x['k'] == 'DeclStmt':
+                        for dd in x['decls']:
+                            if dd.get('n') == rv and dd.get('init') is not None:
+                                d = cf.strip_all_casts(dd['init'])
+                ok_slot = {tgt}
+                for _, x in cf.elements():              # the attachment base of the target (kerning moves the whole cluster): a local started at the target
+                    if x['k'] == 'DeclStmt':
+                        for dd in x['decls']:
+                            if dd.get('init') is not None and cf.render(cf.strip_all_casts(dd['init'])) == tgt and 'Slot' in (dd.get('t') or ''):
+                                ok_slot.add(dd['n'])
+                if d is None or d.get('fq') != 'graphite2::Segment::collisionInfo' or cf.render(cf.strip_all_casts(d['args'][0])) not in ok_slot:
+                    probs.append('the collision record %s is not seg->collisionInfo(%s) (or of its attachment base), the record of the slot being fixed' % (rv, tgt))
+            if probs:
+                run.violated('LIMITARGS', inst, cf.loc(ce), probs[0] + ': the limit is then applied relative to the wrong quantity and the accumulated offset can leave the rectangle')
+            else:
+                run.held('LIMITARGS', inst, cf.loc(ce), 'limit(), shift(), offset() of collisionInfo(target) in the limit / in-pass / accumulated roles')
+    if n < 2:
+        run.broken('LIMITARGS', 'call sites', 'expected 2 initSlot call sites, found %d' % n)
+
+
+def kernclamp(run, fx):
+    """KernCollider::resolve clamps its answer so that previous offset + kern stays inside the limit: the returned x is
+    min(_limit.tr.x - _offsetPrev.x, max(<needed>, _limit.bl.x - _offsetPrev.x)) (either nesting), compared as linear forms."""
+    from . import linear
+    fn = fx.one('graphite2::KernCollider::resolve')
+    inst = 'KernCollider::resolve clamps previous offset + kern into the limit'
+    calls = [e for e in calls_in(fn) if (e.get('fq') or '').split('::')[-1] in ('min', 'max') and len(e.get('args') or []) == 2]
+    def form(x):
+        try:
+            t, c = linear.lin(fn, x)
+        except Exception:
+            return None
+        return (tuple(sorted(t.items())), c)
+    want_hi = (tuple(sorted({'this->_limit.tr.x': 1, 'this->_offsetPrev.x': -1}.items())), 0)
+    want_lo = (tuple(sorted({'this->_limit.bl.x': 1, 'this->_offsetPrev.x': -1}.items())), 0)
+    has_hi = has_lo = False
+    forms = []
+    for e in calls:
+        nm = e['fq'].split('::')[-1]
+        for a in e['args']:
+            f = form(a)
+            forms.append((nm, f))
+            if nm == 'min' and f == want_hi:
+                has_hi = True
+            if nm == 'max' and f == want_lo:
+                has_lo = True
+    if not calls:
+        run.broken('LIMITARGS', inst, 'no min/max clamp found in KernCollider::resolve', fn.where())
+    elif has_hi and has_lo:
+        run.held('LIMITARGS', inst, fn.where(), 'min(.., _limit.tr.x - _offsetPrev.x) and max(.., _limit.bl.x - _offsetPrev.x)')
+    else:
+        run.violated('LIMITARGS', inst, fn.where(), 'the kern is no longer clamped to [_limit.bl.x - _offsetPrev.x, _limit.tr.x - _offsetPrev.x] (upper bound present: %s, lower bound present: %s; '
+                     'clamp operands seen: %s)' % (has_hi, has_lo, [f for f in forms if f[1]][:4]))
+
+
 def _num(s):
     try:
         return float(str(s).rstrip('f'))
@@ -541,7 +649,8 @@ def run(run):
     fx = run.facts('Q0')
     N = 4 if run.tier == 'thorough' and not run.cfg_tag else 3
     for name, f in (('ZONESET', lambda: zoneset(run, fx, N)), ('ZONEWRITERS', lambda: zonewriters(run, fx)),
-                    ('OFFERED', lambda: offered(run, fx, N)), ('RESOLVED', lambda: resolved(run, fx))):
+                    ('OFFERED', lambda: offered(run, fx, N)), ('RESOLVED', lambda: resolved(run, fx)),
+                    ('LIMITARGS', lambda: limitargs(run, fx)), ('LIMITARGS', lambda: kernclamp(run, fx))):
         try:
             f()
         except AnalysisBroken as ex:
